@@ -158,8 +158,4 @@ def bareModules : List Imp → List String
   | [] => []
   | i :: is => (if i.syms == some [] then [i.modname] else []) ++ bareModules is
 
-/-- class of the open finding `sanitise-imports-drops-bare-use`: a USE without ONLY list next to a redundant imported symbol -/
-def KnownBareUse (used : List String) (imps : List Imp) : Bool :=
-  !(bareModules imps).isEmpty && !(importedSyms imps).all (isUsed used)
-
 end LokiModel.C41
